@@ -13,7 +13,7 @@ fn engines() -> Vec<Box<dyn Engine>> {
     for p in ["C06", "C08", "C15", "C16"] {
         v.push(Box::new(bsv_coll::coll::CollEngine::new(p)));
     }
-    v.push(Box::new(bsv_coll::strings::StrEngine { split_mix: false }));
+    v.push(Box::new(bsv_coll::strings::StrEngine { split_mix: false, faulty: false }));
     v.push(Box::new(bsv_lock::LockEngine));
     v.push(Box::new(bsv_core::pure::PureBump));
     v.push(Box::new(bsv_core::pure::PureSize));
